@@ -4,9 +4,13 @@ package main
 
 import (
 	"go/ast"
+	"go/constant"
 	"go/token"
 	"go/types"
+	"sort"
 	"strings"
+
+	"golang.org/x/tools/go/cfg"
 )
 
 // ---- catalog tables are not statement targets (D21) ---------------------------------------------
@@ -378,4 +382,418 @@ func rootIdent(e ast.Expr) *ast.Ident {
 			return nil
 		}
 	}
+}
+
+// ---- a page that is appended to the store is dirty (C16-r10m3) ---------------------------------------
+
+// ruleAppendedPageDirty: store.append registers a new page in the cache and hands out its offset; nothing is written.
+// Until its first flush the page exists only in the cache. If it is clean there it may be evicted (only clean pages
+// are), and then its offset names a hole in the data file: zeros, which read back as an empty internal node.
+func ruleAppendedPageDirty(c *Ctx, rule string) {
+	c.Rule(rule, "a new page never sits in the cache clean: in every function outside the store that calls store.append(p), p.markDirty(…) is called before the append or on every success path from the append to the function's return — an appended page exists only in the cache; clean, it can be evicted before it was ever written, and its offset then names a hole in the data file (zeros: an empty internal node, on which SELECT panics and INSERT recurses for ever). An empty table's root that leaves a small cache is exactly that case")
+	w := c.W
+	n := 0
+	for _, name := range w.SortedFuncNames() {
+		f := w.Funcs[name]
+		if f.Pkg != w.Pkgs["storage"] || strings.Contains(f.Name, "fileStore") || strings.Contains(f.Name, "memoryStore") {
+			continue
+		}
+		g := f.Graph()
+		for _, call := range f.Calls(f.Decl.Body, false, "storage.*.append") {
+			if len(call.Args) != 1 {
+				continue
+			}
+			id, ok := ast.Unparen(call.Args[0]).(*ast.Ident)
+			if !ok {
+				continue
+			}
+			if t := f.TypeOf(id); t == nil || !namedTypeIs(t, "storage", "btreeNode") {
+				continue
+			}
+			obj := f.ObjOf(id)
+			n++
+			key := f.Name + "|appended-dirty|" + id.Name
+			loc, ok := g.Locate(call)
+			if !ok {
+				c.Undecided(rule, key, "append call not located in the flow graph of %s", f.Name)
+				continue
+			}
+			marks := func(nn ast.Node) bool {
+				for _, d := range f.Calls(nn, false, "storage.btreeNode.markDirty") {
+					if sel, ok := d.Fun.(*ast.SelectorExpr); ok {
+						if mid, ok := ast.Unparen(sel.X).(*ast.Ident); ok && f.ObjOf(mid) == obj {
+							return true
+						}
+					}
+				}
+				return false
+			}
+			before := false
+			for _, d := range f.Calls(f.Decl.Body, false, "storage.btreeNode.markDirty") {
+				if marks(d) {
+					if dl, ok := g.Locate(d); ok && g.Dominates(dl, loc) {
+						before = true
+					}
+				}
+			}
+			if before {
+				c.OK(rule, key, call.Pos(), 1, "%s is marked dirty before it is appended", id.Name)
+				continue
+			}
+			// the appended page variable is non-nil (it was handed to append): the nil side of a later nil test is dead
+			edge := func(b *cfg.Block, si int) bool {
+				if !g.SuccessEdges(b, si) {
+					return false
+				}
+				if info, ok := g.EdgeInfo(b, si); ok && !info.Case {
+					if be, ok := ast.Unparen(info.Cond).(*ast.BinaryExpr); ok && isNilIdent(f, be.Y) {
+						if nid, ok := ast.Unparen(be.X).(*ast.Ident); ok && f.ObjOf(nid) == obj {
+							if (be.Op == token.NEQ && !info.Val) || (be.Op == token.EQL && info.Val) {
+								return false
+							}
+						}
+					}
+				}
+				return true
+			}
+			miss, _ := g.Forward(&loc, edge, func(nn ast.Node, at Loc) Verdict {
+				if marks(nn) {
+					return Cut
+				}
+				if r, ok := nn.(*ast.ReturnStmt); ok {
+					if g.ReturnMayBeNil(r) {
+						return Hit
+					}
+					return Cut
+				}
+				return Go
+			}, func(b *cfg.Block) Verdict { return Hit })
+			if miss {
+				c.Fail(rule, key, call.Pos(), "%s appends page %s and can return successfully without ever marking it dirty: the page is in the cache only, clean, and may be evicted before it was written — its offset then reads back as zeros", f.Name, id.Name)
+			} else {
+				c.OK(rule, key, call.Pos(), 2, "%s is marked dirty on every success path after the append", id.Name)
+			}
+		}
+	}
+	if n < 5 {
+		c.Undecided(rule, "subjects|append-sites", "only %d store.append call sites found outside the store (expected the two split paths with their new roots, and createPage)", n)
+	}
+}
+
+// ---- the decoder admits an empty node (C12-r10m3) ----------------------------------------------------
+
+// ruleFreeAreaBound: after the slot array the rest of a page image is free area + cells. A node without cells (the
+// root of every new table) has a free area that reaches exactly to the end: a decoder that refuses freeSize >= rest
+// refuses every empty table after a restart.
+func ruleFreeAreaBound(c *Ctx, rule string) {
+	c.Rule(rule, "the page decoders admit an empty node: where decodeLeaf / decodeInternal refuse a page because of its free-area size, the comparison with the bytes that are left (buf.Len()) is strict — freeSize > left. A node without cells (the root of every new table) has a free area that ends exactly where the buffer ends; `>=` refuses it, and the table cannot be opened after a restart or an eviction")
+	for _, name := range []string{"storage.(*btreeNode).decodeLeaf", "storage.(*btreeNode).decodeInternal"} {
+		f := c.NeedFunc(rule, name)
+		if f == nil {
+			continue
+		}
+		g := f.Graph()
+		key := f.Name + "|free-area-bound"
+		bad := ""
+		var badPos token.Pos
+		seen := 0
+		inspectBody(f.Decl.Body, func(x ast.Node) bool {
+			ifs, ok := x.(*ast.IfStmt)
+			if !ok {
+				return true
+			}
+			var visit func(e ast.Expr)
+			visit = func(e ast.Expr) {
+				be, ok := ast.Unparen(e).(*ast.BinaryExpr)
+				if !ok {
+					return
+				}
+				if be.Op == token.LAND || be.Op == token.LOR {
+					visit(be.X)
+					visit(be.Y)
+					return
+				}
+				l, r := exprKey(be.X), exprKey(be.Y)
+				op := be.Op
+				if strings.Contains(r, "freeSize") && strings.Contains(l, ".Len()") {
+					l, r, op = r, l, mirrorOp(op)
+				}
+				if !strings.Contains(l, "freeSize") || !strings.Contains(r, ".Len()") || strings.Contains(r, "+") || strings.Contains(r, "-") || strings.Contains(l, "+") || strings.Contains(l, "-") {
+					return
+				}
+				// does the branch refuse?
+				refuses := false
+				ast.Inspect(ifs.Body, func(y ast.Node) bool {
+					if ret, ok := y.(*ast.ReturnStmt); ok && len(ret.Results) > 0 && !g.ReturnMayBeNil(ret) {
+						refuses = true
+					}
+					return true
+				})
+				if !refuses {
+					return
+				}
+				seen++
+				if op == token.GEQ || op == token.EQL || op == token.LEQ {
+					bad = "`" + exprKey(be) + "` refuses a page whose free area ends exactly at the end of the buffer"
+					badPos = be.Pos()
+				}
+			}
+			visit(ifs.Cond)
+			return true
+		})
+		if bad != "" {
+			c.Fail(rule, key, badPos, "%s: %s — that is every node without cells, the root of a new table", f.Name, bad)
+		} else {
+			c.OK(rule, key, f.Decl.Pos(), 1+seen, "no refusal of a free area that reaches the end of the page (%d bounds on the free area examined)", seen)
+		}
+	}
+}
+
+// ---- integers never pass through a floating-point type (C19-r10m3) ------------------------------------
+
+func ruleNoFloatDetour(c *Ctx, rule string, roots ...string) {
+	c.Rule(rule, "an integer field never passes through a floating-point type: in the call cone of the record conversion (csvToSql) there is no conversion from a float type to an integer type — a float64 has 53 bits of mantissa, so a BIGINT above 2^53 parsed with ParseFloat and converted back is silently rounded to a neighbouring value while the record is reported as stored")
+	w := c.W
+	var rs []*Func
+	for _, r := range roots {
+		if f := c.NeedFunc(rule, r); f != nil {
+			rs = append(rs, f)
+		}
+	}
+	if len(rs) == 0 {
+		return
+	}
+	cone := w.CG().Reach(rs...)
+	var names []string
+	for f := range cone {
+		names = append(names, f.Name)
+	}
+	sort.Strings(names)
+	n := 0
+	for _, nm := range names {
+		f := w.Funcs[nm]
+		if f == nil || f.Decl == nil || f.Decl.Body == nil {
+			continue
+		}
+		if f.Pkg != w.Pkgs["csvimport"] && f.Pkg != w.Pkgs["sql"] {
+			continue
+		}
+		n++
+		bad := ""
+		var badPos token.Pos
+		ast.Inspect(f.Decl.Body, func(x ast.Node) bool {
+			call, ok := x.(*ast.CallExpr)
+			if !ok || len(call.Args) != 1 {
+				return true
+			}
+			tv, ok := f.Pkg.TypesInfo.Types[call.Fun]
+			if !ok || !tv.IsType() {
+				return true
+			}
+			to, ok1 := tv.Type.Underlying().(*types.Basic)
+			at := f.TypeOf(call.Args[0])
+			if at == nil || !ok1 {
+				return true
+			}
+			from, ok2 := at.Underlying().(*types.Basic)
+			if ok2 && to.Info()&types.IsInteger != 0 && from.Info()&types.IsFloat != 0 {
+				bad = exprKey(call)
+				badPos = call.Pos()
+			}
+			return true
+		})
+		key := f.Name + "|float-to-int"
+		if bad != "" {
+			c.FailConfined(rule, key, badPos, "%s converts a floating-point value to an integer (%s) on the way from the record to the row: integers above 2^53 are rounded silently", f.Name, bad)
+		} else {
+			c.OK(rule, key, f.Decl.Pos(), 1, "no float-to-integer conversion")
+		}
+	}
+	if n == 0 {
+		c.Undecided(rule, "subjects|cone", "the conversion cone is empty")
+	}
+}
+
+// ---- storage errors keep their identity (C19-r10m2) ----------------------------------------------------
+
+// ruleErrorsWrappedWithW: callers tell storage errors apart with errors.Is (the import loop: a refused record or a
+// failing store; replay: a row that is already there). An error value that is re-formatted with %s / %v / .Error()
+// is a new, anonymous error.
+func ruleErrorsWrappedWithW(c *Ctx, rule string) {
+	c.Rule(rule, "storage errors keep their identity: in the storage package every fmt.Errorf that formats an error value (an argument of type error, or x.Error()) does so with %w — the sentinels a storage call can return (row too large, key exists, cache full, type mismatch) are told apart by callers with errors.Is; an error re-formatted with %s or %v is a new anonymous error, a refused record is then taken for a failing store (or the reverse) and the import stops or carries on wrongly")
+	w := c.W
+	n := 0
+	for _, name := range w.SortedFuncNames() {
+		f := w.Funcs[name]
+		if f.Pkg != w.Pkgs["storage"] {
+			continue
+		}
+		k := 0
+		ast.Inspect(f.Decl.Body, func(x ast.Node) bool {
+			call, ok := x.(*ast.CallExpr)
+			if !ok || len(call.Args) < 2 {
+				return true
+			}
+			callee := f.Callee(call)
+			if callee == nil || callee.Pkg() == nil || callee.Pkg().Path() != "fmt" || callee.Name() != "Errorf" {
+				return true
+			}
+			format := ""
+			if cv := f.constOf(call.Args[0]); cv != nil {
+				if cv.Kind() != constant.String {
+					return true
+				}
+				format = constant.StringVal(cv)
+			} else {
+				return true
+			}
+			verbs := formatVerbs(format)
+			for i, a := range call.Args[1:] {
+				isErr := false
+				if t := f.TypeOf(a); t != nil && isErrorType(t) {
+					isErr = true
+				}
+				if ce, ok := ast.Unparen(a).(*ast.CallExpr); ok && len(ce.Args) == 0 {
+					if sel, ok := ce.Fun.(*ast.SelectorExpr); ok && sel.Sel.Name == "Error" {
+						if t := f.TypeOf(sel.X); t != nil && isErrorType(t) {
+							isErr = true
+						}
+					}
+				}
+				if !isErr {
+					continue
+				}
+				n++
+				k++
+				key := f.Name + "|errorf#" + itoa(k)
+				if i < len(verbs) && verbs[i] == 'w' {
+					c.OK(rule, key, call.Pos(), 1, "error argument %s is wrapped with %%w", exprKey(a))
+				} else {
+					c.FailConfined(rule, key, call.Pos(), "%s formats the error %s without %%w: whatever sentinel it carries is no longer recognised by errors.Is in the callers", f.Name, exprKey(a))
+				}
+			}
+			return true
+		})
+	}
+	if n < 5 {
+		c.Undecided(rule, "subjects|errorf", "only %d fmt.Errorf calls with an error argument found in storage", n)
+	}
+}
+
+func formatVerbs(format string) []byte {
+	var out []byte
+	for i := 0; i < len(format); i++ {
+		if format[i] != '%' {
+			continue
+		}
+		i++
+		for i < len(format) && strings.IndexByte("+-# 0123456789.*[]", format[i]) >= 0 {
+			i++
+		}
+		if i >= len(format) {
+			break
+		}
+		if format[i] == '%' {
+			continue
+		}
+		out = append(out, format[i])
+	}
+	return out
+}
+
+// ---- a page is written as one whole image (C12-r10m2) ---------------------------------------------------
+
+func ruleWholePageWrite(c *Ctx, rule string) {
+	c.Rule(rule, "a page reaches the data file as one whole image: fileStore.update issues exactly one WriteAt, its data argument is the complete buffer node.encode() returned (buf.Bytes(), not a sub-slice of it) and its position is the node's file offset — what is in the file after a flush is then exactly the encoding, whatever a decoder chooses to look at; a page written in pieces keeps bytes of its previous image (and a crash between the pieces leaves a page that is neither)")
+	f := c.NeedFunc(rule, "storage.(*fileStore).update")
+	if f == nil {
+		return
+	}
+	key := f.Name + "|whole-image"
+	var writes []*ast.CallExpr
+	ast.Inspect(f.Decl.Body, func(x ast.Node) bool {
+		if call, ok := x.(*ast.CallExpr); ok {
+			if callee := f.Callee(call); callee != nil && callee.Name() == "WriteAt" {
+				writes = append(writes, call)
+			}
+		}
+		return true
+	})
+	var enc types.Object
+	inspectBody(f.Decl.Body, func(x ast.Node) bool {
+		if as, ok := x.(*ast.AssignStmt); ok && len(as.Rhs) == 1 && len(as.Lhs) >= 1 {
+			if call, ok := ast.Unparen(as.Rhs[0]).(*ast.CallExpr); ok {
+				if callee := f.Callee(call); callee != nil && callee.Name() == "encode" {
+					if id, ok := as.Lhs[0].(*ast.Ident); ok {
+						enc = f.ObjOf(id)
+					}
+				}
+			}
+		}
+		return true
+	})
+	switch {
+	case len(writes) == 0 || enc == nil:
+		c.Fail(rule, key, f.Decl.Pos(), "fileStore.update does not write the buffer returned by node.encode() with WriteAt")
+	case len(writes) > 1:
+		c.Fail(rule, key, writes[1].Pos(), "fileStore.update writes a page with %d separate WriteAt calls: the bytes between the pieces keep their previous content and a crash between the calls leaves a page that is neither the old nor the new image", len(writes))
+	default:
+		wcall := writes[0]
+		okData := false
+		if len(wcall.Args) == 2 {
+			a := ast.Unparen(wcall.Args[0])
+			if ce, ok := a.(*ast.CallExpr); ok && len(ce.Args) == 0 {
+				if sel, ok := ce.Fun.(*ast.SelectorExpr); ok && sel.Sel.Name == "Bytes" {
+					if id, ok := ast.Unparen(sel.X).(*ast.Ident); ok && f.ObjOf(id) == enc {
+						okData = true
+					}
+				}
+			}
+			if id, ok := a.(*ast.Ident); ok {
+				// a local holding buf.Bytes()
+				if rhs, _, ok := f.definedBy(f.Decl.Body, f.ObjOf(id)); ok && strings.HasSuffix(exprKey(rhs), ".Bytes()") && !strings.Contains(exprKey(rhs), "[") {
+					okData = true
+				}
+				if f.ObjOf(id) == enc {
+					okData = true
+				}
+			}
+		}
+		if !okData {
+			c.Fail(rule, key, wcall.Pos(), "the data written (%s) is not the complete encoded image of the page", exprKey(wcall.Args[0]))
+		} else if !strings.Contains(exprKey(wcall.Args[1]), "FileOffset") && !strings.Contains(exprKey(wcall.Args[1]), "fileOffset") {
+			c.Fail(rule, key, wcall.Pos(), "the page is not written at the node's file offset (%s)", exprKey(wcall.Args[1]))
+		} else {
+			c.OK(rule, key, wcall.Pos(), 2, "one WriteAt of the whole encoded buffer at the node's offset")
+		}
+	}
+}
+
+// writtenOutHelpers: the helpers the rules have never seen whose bodies were written out inside f before analysis
+// (helper transparency leaves a comment at each site).
+func writtenOutHelpers(f *Func) []string {
+	var out []string
+	seen := map[string]bool{}
+	for _, file := range f.Pkg.Syntax {
+		if !(file.Pos() <= f.Decl.Pos() && f.Decl.End() <= file.End()) {
+			continue
+		}
+		for _, cg := range file.Comments {
+			if cg.Pos() < f.Decl.Pos() || cg.End() > f.Decl.End() {
+				continue
+			}
+			for _, cm := range cg.List {
+				t := cm.Text
+				if i := strings.Index(t, "// helper "); i >= 0 && strings.Contains(t, "made transparent for analysis") {
+					name := strings.TrimSpace(strings.TrimSuffix(strings.TrimPrefix(t[i:], "// helper "), "made transparent for analysis"))
+					if !seen[name] {
+						seen[name] = true
+						out = append(out, name)
+					}
+				}
+			}
+		}
+	}
+	sort.Strings(out)
+	return out
 }
